@@ -32,12 +32,15 @@ def positive(ctx, rid, fname, text):
     failed_lines = {ln for ln, _ in mine}
     if rc != 0 and not mine and not other:
         raise Broken('witness TU %s failed to compile without a located error: %s' % (fname, raw[-400:]))
-    hard = [(ln, msg) for ln, msg in mine if not any(ln == o[0] or (o[0] <= ln <= o[0] + 3) for o in obl)]
+    def owner(eln):
+        c = [o[0] for o in obl if o[0] <= eln]
+        return max(c) if c and eln - max(c) <= 3 else None
+    hard = [(ln, msg) for ln, msg in mine if owner(ln) is None]
     if other and not mine:
         # an error inside the library headers themselves: the tree does not compile the witness at all
         raise Broken('witness TU %s does not compile against this tree: %s:%d %s' % (fname, other[0][0], other[0][1], other[0][2]))
     for ln, l in obl:
-        bad = [msg for (eln, msg) in mine if ln <= eln <= ln + 3]
+        bad = [msg for (eln, msg) in mine if owner(eln) == ln]
         ctx.ob(rid, 'type-witness ' + fname, '%s:%d' % (fname, ln), not bad, l[:200], detail={'compiler': bad[:2]} if bad else None, desc=re.sub(r'\s+', ' ', l)[:160])
     for ln, msg in hard:
         ctx.ob(rid, 'type-witness ' + fname, '%s:%d' % (fname, ln), False, 'witness code must compile: ' + msg[:160], desc='compile error: ' + re.sub(r"'[^']*'", "'..'", msg)[:80])
